@@ -5,6 +5,7 @@ import (
 
 	"com.tuntun.rangers/node/src/common"
 	"com.tuntun.rangers/node/src/middleware/db"
+	"com.tuntun.rangers/node/src/middleware/log"
 	"com.tuntun.rangers/node/src/storage/account"
 )
 
@@ -14,6 +15,8 @@ func vsInit(height uint64) {
 	if !vsInitDone {
 		common.Init(0, "verif.ini", "mainnet")
 		account.Init()
+		logger = log.GetLoggerByIndex(log.CoreLogConfig, "0")
+		txLogger = log.GetLoggerByIndex(log.TxLogConfig, "0")
 		InitMinerManager()
 		InitRefundManager(nil, nil)
 		vsInitDone = true
